@@ -149,7 +149,7 @@ def generate(rng, tier, corpus_lines):
     lines = []   # (line, meta)
     for l in corpus_lines:
         lines.append((l, {"src": "corpus"}))
-    nX, nE, nT, nG, nH = (220, 200, 90, 200, 60) if tier == "quick" else (1500, 1200, 500, 1200, 400)
+    nX, nE, nT, nG, nH = (2000, 1800, 700, 1800, 600) if tier == "quick" else (36000, 27000, 9000, 27000, 9000)
     for _ in range(nX):
         kind, D = gen_diagram(rng, tier, allow_degenerate=True)
         if rng.random() < 0.02:
